@@ -1,9 +1,9 @@
 (** M-Kill: what rebench/subprocess_kill.py collects and kills (a snapshot of the process forest as
     pgrep -P reports it), and the decision of rebench/subprocess_with_timeout.run whether to kill.
-    The decision itself is regenerated from the source (Gen/GenFacts.kill_cond).  Executable, no proofs. *)
+    The decision itself is regenerated from the source (Gen/GenFactsKill.kill_cond).  Executable, no proofs. *)
 From Coq Require Import List ZArith Bool Arith.
 Import ListNotations.
-From RV Require Import Lib.Sx Gen.GenFacts.
+From RV Require Import Lib.Sx Gen.GenFactsKill.
 
 (** the forest: children p = what `pgrep -P p` prints *)
 Definition forest := nat -> list nat.
